@@ -29,6 +29,20 @@ ASSUMPTIONS = ['static registration only (dynamic registration: C19 engine)', 'A
 
 SELS = ['m.f', 'n.g', 'pkg.sub.h', 'k', 'n.sub.h', 'm.Foo', 'm.foo']
 MODS = ['alpha', 'beta.gamma', 'pkg.sub', 'zeta', 'other.alpha']
+# classes with registered methods: two same-named classes in different modules sharing a method name, one unique
+CLASSES = [['cluster.local', 'Worker', ['run']], ['cluster.remote', 'Worker', ['run', 'stop']], ['m', 'Solo', ['go']]]
+
+
+def class_sels(classes):
+  out = []
+  for module, name, methods in classes:
+    out.append(module + '.' + name)
+    out += [module + '.' + name + '.' + m for m in methods]
+  return out
+
+
+def method_sels(classes):
+  return [module + '.' + name + '.' + m for module, name, methods in classes for m in methods]
 
 
 class BadRepr:
@@ -94,6 +108,13 @@ class Builder:
       fn = env[name]
       fn.__module__ = None
       gin.configurable(name, module='.'.join(sel.split('.')[:-1]) or None)(fn)
+    for i, (module, name, methods) in enumerate(case.get('classes', [])):
+      src = 'class %s:\n  def __init__(self, a=None, b=None, c=None, **kw):\n    pass\n' % name
+      for m in methods:
+        src += '  @gin.register\n  def %s(self, a=None, b=None, c=None, **kw):\n    return None\n' % m
+      env = {'gin': gin, '__name__': 'c06cls%d' % i}
+      exec(src, env)  # pylint: disable=exec-used
+      gin.register(name, module=module)(env[name])
 
   def close(self):
     for n in self.mods:
@@ -167,6 +188,9 @@ class SerialEngine(Engine):
     return [
         dict(base, ops=[['bind', 'mm/gin.macro.value', ['obj', 'o1']], ['bind', 'f.a', ['i', 3]]]),           # F17
         dict(base, ops=[['bind', 'Foo.a', ['i', 1]], ['bind', 'foo.a', ['i', 2]]]),                          # F14
+        dict(base, classes=CLASSES, ops=[['bind', 'cluster.local.Worker.run.a', ['i', 1]], ['pbind', 'remote.Worker.run.a', ['i', 2]],
+                                         ['bind', 'Worker.stop.b', ['i', 2]], ['pbind', 'Solo.go.b', ['i', 3]], ['bind', 'Solo.a', ['i', 3]],
+                                         ['bind', 's1/local.Worker.b', ['i', 4]]]),
         dict(base, ops=[['import', 'import alpha'], ['import', 'from other import alpha'], ['import', 'import beta.gamma as bg'],
                         ['import', 'from pkg import sub'], ['pbind', 's1/s2/f.a', ['l', [['i', i] for i in range(40)]]],
                         ['pbind', 'mm', ['s', 'v']], ['pbind', 'g.b', ['macro', 'mm']], ['bind', 'g.c', ['badrepr']],
@@ -175,7 +199,9 @@ class SerialEngine(Engine):
 
   def gen(self, rng, tier):
     sels = rng.sample(SELS, rng.randint(1, 4))
-    regs = [{'sel': s} for s in sels]
+    classes = rng.sample(CLASSES, rng.choice([0, 0, 1, 2, 3]))
+    regs = [{'sel': s} for s in sels + class_sels(classes)]
+    meths = set(method_sels(classes))
     ops = []
     used = set()
     for _ in range(rng.randint(0, 3)):
@@ -194,8 +220,8 @@ class SerialEngine(Engine):
         ops.append(['import', 'from %s import %s' % (a, b) + (' as ' + rng.choice(['al', 'alpha']) if rng.random() < 0.3 else '')])
     seen = set()
     for _ in range(rng.randint(1, 8)):
-      sel = rng.choice(sels)
-      sp = rng.choice(ginm.spellings(sel, regs))
+      sel = rng.choice(sels + class_sels(classes) * 2)
+      sp = rng.choice([x for x in ginm.spellings(sel, regs) if sel not in meths or '.' in x])   # methods need Class.method
       sc = '/'.join(ginm.gen_scope(rng, 2))
       p = rng.choice(['a', 'b', 'c', 'zeta', 'Alpha'])
       v = gen_value(rng, regs)
@@ -207,7 +233,7 @@ class SerialEngine(Engine):
         if v[0] != 'macro':
           ops.append(['pbind', m, v] if textable(v) else ['bind', m + '/gin.macro.value', v])
     indent = rng.choice([0, 2, 4, 8])
-    return {'sels': sels, 'modules': MODS, 'ops': ops, 'maxlen': rng.choice([indent + 1, indent + 5, 20, 40, 80, 120]),
+    return {'sels': sels, 'classes': classes, 'modules': MODS, 'ops': ops, 'maxlen': rng.choice([indent + 1, indent + 5, 20, 40, 80, 120]),
             'indent': indent}
 
   def shrink(self, case):
@@ -226,7 +252,7 @@ class SerialEngine(Engine):
         params = []
         for p, v in d.items():
           params.append([p, bool(cfg._is_literally_representable(v)), pprint.pformat(v, width=width).split('\n')])  # pylint: disable=protected-access
-        entries.append([s, q, params])
+        entries.append([s, q, params, bool(cfg._REGISTRY[q].is_method)])  # pylint: disable=protected-access
       imports = sorted([[st.module, bool(st.is_from), st.alias] for st in cfg._IMPORTS], key=repr)  # pylint: disable=protected-access
       registry = [k for k, _ in cfg._REGISTRY.items()]  # pylint: disable=protected-access
       text = b.text()
@@ -240,10 +266,10 @@ class SerialEngine(Engine):
     registry, imports, entries, _, _, _, b = self._measure(case)
     b.close()
     ents = C.clist([
-        '{| e_scope := %s; e_sel := %s; e_method := false; e_params := %s |}' % (
-            C.cstr(s), C.cstr(q), C.clist(['(%s, {| v_repr_ok := %s; v_lines := %s |})' % (C.cstr(p), C.cbool(ok), C.cstrs(ls))
-                                           for p, ok, ls in params]))
-        for s, q, params in entries])
+        '{| e_scope := %s; e_sel := %s; e_method := %s; e_params := %s |}' % (
+            C.cstr(s), C.cstr(q), C.cbool(meth), C.clist(['(%s, {| v_repr_ok := %s; v_lines := %s |})' % (C.cstr(p), C.cbool(ok), C.cstrs(ls))
+                                                          for p, ok, ls in params]))
+        for s, q, params, meth in entries])
     imps = C.clist(['{| i_module := %s; i_from := %s; i_alias := %s |}' % (C.cstr(m), C.cbool(f), C.copt(a, C.cstr))
                     for m, f, a in imports]) if imports else '(@nil simport)'
     return '((%s, %s, %s), (%s, %s))' % (C.cstrs(registry), imps, ents if entries else '(@nil sentry)',
